@@ -8,6 +8,7 @@ import math
 from gcmpy.tools.draw_set import DrawSet
 
 from ..engine import describe_exc
+from ..simrandom import _RealRandom as _R
 
 ID = "C20"
 RUNS = {"quick": 48000, "thorough": 400000, "thorough_s": 240}
@@ -17,7 +18,8 @@ RULE = ("seeded histories of 1..60 operations (add present/absent, remove by val
         "iterate, remove-absent as injected invalid operation, coverage bursts, exact coverage by enumerating the draw's decision) over universes of 1..8 "
         "elements (edge tuples rebuilt as fresh equal objects, ints, strings, mixed); draw decisions under "
         "uniform/min/max/sticky/mix policies; a run is non-trivial when it mutated the set at least twice; "
-        "distinct = distinct execution digests (operations, results and RNG decisions)")
+        "distinct = distinct execution digests (operations, results and RNG decisions); one history per invocation grows past "
+        "2^16 or 2^17 members and shrinks back through the power of two")
 ASSUMPTIONS = ["reference model is Python's built-in set", "elements are hashable with value equality",
                "coverage clause assumes draw() consumes the module-level RNG (any algorithm)"]
 REAL = ["gcmpy.tools.draw_set.DrawSet (from the working tree)", "CPython random.choice above the primitives"]
@@ -50,6 +52,12 @@ def _universe(prng, kind, n):
 
 
 def generate(prng, tier, index):
+    if index == 0 or (tier == "thorough" and index % 50000 == 0):
+        # scale: one history that grows past 2^16 / 2^17 members and shrinks back through the power of two by removing
+        # non-last members (thresholds in size are dead code on every small universe); model compared at checkpoints
+        top = prng.choice((65536, 65536, 131072))
+        return {"variant": "clean", "kind": "scale", "grow_to": top + prng.randrange(1, 40), "shrink_to": top - prng.randrange(1, 40),
+                "remove": prng.choice(("first", "middle", "random")), "policy": {"int": "uniform"}, "universe": [], "ops": []}
     n = prng.randrange(1, 9)
     kind = prng.choice(KINDS)
     length = prng.randrange(1, 61 if tier == "quick" else 121)
@@ -133,7 +141,67 @@ def _compare(ctx, ds, model, uni, after):
     return ok
 
 
+def execute_scale(sc, ctx):
+    src = ctx.source("draw", sc.get("policy"))
+    ds = DrawSet()
+    model = set()
+    prng = _R(ctx.seed)
+    for x in range(sc["grow_to"]):
+        ds.add(x)
+        model.add(x)
+    order = list(ds)
+
+    def checkpoint(where):
+        ctx.check("C20.len"); ctx.check("C20.iter"); ctx.check("C20.contains")
+        if len(ds) != len(model):
+            ctx.violate("C20.len", f"len={len(ds)} model={len(model)} {where}")
+            return False
+        items = list(ds)
+        if len(items) != len(set(items)) or set(items) != model:
+            ctx.violate("C20.iter", f"iteration differs from the model ({len(set(items) ^ model)} elements) {where}")
+            return False
+        return True
+
+    if not checkpoint(f"after adding {sc['grow_to']} members"):
+        return
+    removed = []
+    while len(model) > sc["shrink_to"]:
+        cur_len = len(model)
+        if sc["remove"] == "first":
+            e = next(iter(ds))
+        elif sc["remove"] == "middle":
+            e = order[len(order) // 2 - len(removed)] if order[len(order) // 2 - len(removed)] in model else next(iter(model))
+        else:
+            e = order[prng.randrange(len(order))]
+            if e not in model:
+                continue
+        st, v = ctx.call(src, ds.remove, e, label="remove")
+        if st != "ok":
+            ctx.violate("C20.raised", f"remove: {st}: {describe_exc(v)} at size {cur_len}")
+            return
+        model.discard(e)
+        removed.append(e)
+        for r in removed[-3:]:
+            if r in ds:
+                ctx.violate("C20.contains", f"{r!r} in set -> True after it was removed (size went {cur_len} -> {len(model)})")
+                return
+        if len(ds) != len(model):
+            ctx.violate("C20.len", f"len={len(ds)} model={len(model)} after removing {e!r} at size {cur_len}")
+            return
+    if not checkpoint(f"after shrinking to {sc['shrink_to']} members"):
+        return
+    for r in removed[:5]:
+        ds.add(r)
+        model.add(r)
+    checkpoint("after re-inserting removed members")
+    ctx.probe("scale_history_members", sc["grow_to"])
+    ctx.mutations = sc["grow_to"]
+    ctx.result("scale", len(model))
+
+
 def execute(sc, ctx):
+    if sc.get("kind") == "scale":
+        return execute_scale(sc, ctx)
     uni = sc["universe"]
     src = ctx.source("draw", sc.get("policy"))
     usrc = None
@@ -298,6 +366,8 @@ def nontrivial(sc, ctx):
 
 
 def shrink(sc):
+    if sc.get("kind") == "scale":
+        return
     ops = sc["ops"]
     n = len(ops)
     if n > 1:
